@@ -214,6 +214,7 @@ fn budget_exceeded(site: u16, n: u32) {
     let prop = match BUDGET_PROP.load(Relaxed) {
         8 => "C08",
         9 => "C09",
+        13 => "C13",
         _ => "C09",
     };
     crate::viol::report(
